@@ -26,7 +26,7 @@ T == ndJsonDeserialize(IOEnv.TRACE)
 
 Match(e, t) ==
   /\ e.p = t.p /\ e.a = t.a /\ e.o = t.o /\ e.old = t.old /\ e.new = t.new /\ e.ok = t.ok
-  /\ e.obs = t.obs /\ e.done = t.done
+  /\ e.obs = t.obs /\ e.done = t.done /\ e.spur = t.spur
 
 Progress(n) == IF n > TLCGet(2) THEN TLCSet(2, n) ELSE TRUE
 Note(site, t) == TLCSet(1, TLCGet(1) \cup {<<site, t.ord, t.ford, t.fences>>})
